@@ -1,10 +1,10 @@
 CONSTANTS
   NInst = 3
-  MaxFaults = 1
+  MaxFaults = 2
   Depth = 3
   Slow = FALSE
   Lean = TRUE
-  HandleInst <- HandleOne
+  HandleInst <- HandleTwo
 INIT Init
 NEXT Next
 INVARIANTS TypeOK NamesOnce GetIsFirst ListingIsFirstDrivers FoundIsFirstMatch FoundOpenOrClosed NoPortWithError
